@@ -39,10 +39,12 @@ Theorem C11_values : forall c es,
 Proof. exact retokenise_values. Qed.
 
 (* Conversely every sequence of tokens whose payloads are in the range of their Rust types, with
-   Simple not in 24..=31, F16 payloads exactly representable in half precision and strings valid
-   UTF-8, is accepted by Encoder::tokens, and tokenising the bytes written yields, without error, as
-   many tokens with the same values (U32(5) may come back as U8(5), Simple(20) as Bool(false), Int
-   variants by numeric value). *)
+   F16 payloads exactly representable in half precision and strings valid UTF-8, is accepted by
+   Encoder::tokens, and tokenising the bytes written yields, without error, as many tokens with the
+   same values (U32(5) may come back as U8(5), Simple(20) as Bool(false), Int variants by numeric
+   value).  Simple(24..=31) is included: it is written as f8 18..f8 1f and read back as the same token;
+   that those two bytes are not a well-formed RFC 8949 item is finding F2b (C03_simple_reserved_refuted) —
+   C11_retokenise / C11_identity / C11_values, which start from well-formed items, do not cover them. *)
 Theorem C11_converse : forall c ts, tokens_ok ts = true ->
   exists cs, enc_tokens ts = Some cs /\
     (len (flat cs) < two64 ->
@@ -77,7 +79,16 @@ Proof. vm_compute. repeat split; try reflexivity. discriminate. Qed.
 
 Example C11_converse_example :
   tokens_ok [TkU32 5; TkSimple 20; TkInt (true, 300); TkF16 1065353216; TkString [226;130;172]] = true
-  /\ tokens_ok [TkSimple 24] = false /\ tokens_ok [TkF16 1065353217] = false.
+  /\ tokens_ok [TkSimple 24; TkSimple 31; TkSimple 255] = true
+  /\ tokens_ok [TkSimple 256] = false /\ tokens_ok [TkF16 1065353217] = false.
+Proof. vm_compute. auto. Qed.
+
+(* F2b seen through the token codec: Token::Simple(24) is written as f8 18 and read back as Simple(24),
+   although f8 18 is not a well-formed item. *)
+Example C11_converse_reserved_example :
+  option_map flat (enc_tokens [TkSimple 24]) = Some [248; 24]
+  /\ tokenise cfg_full [248; 24] = Ok [IOk (TkSimple 24)]
+  /\ one_item [248; 24] = None.
 Proof. vm_compute. auto. Qed.
 
 Print Assumptions C11_retokenise.
